@@ -312,7 +312,10 @@ type Frame struct {
 func GC() {}
 
 func Goexit() {
-	js.Global.Get("$curGoroutine").Set("exit", true)
+	g := js.Global.Get("$curGoroutine")
+	g.Set("exit", true)
+	// Frames with deferred calls that are active now have to be unwound once their deferred calls ran.
+	g.Set("exitDepth", g.Get("deferStack").Length())
 	js.Global.Call("$throw", nil)
 }
 
